@@ -404,7 +404,7 @@ Lemma br_plain : forall st st' b t ev,
   (forall e, In e ev -> plain e) ->
   (tcur (thr st t) = None -> tcont (thr st' t) <> [] ->
    (tcont (thr st t) <> [] /\ (only_locks (tcont (thr st t)) -> exists e, In e ev /\ is_ghost e = false)) \/
-   only_locks (tcont (thr st' t))) ->
+   only_locks (tcont (thr st' t)) \/ tcont (thr st' t) = tcont (thr st t)) ->
   (t < nthr st)%nat ->
   BRel st' (fold_left mb_step (evs t ev) b).
 Proof.
@@ -416,9 +416,10 @@ Proof.
   - rewrite A1. apply (br_nd st b B).
   - rewrite A2, Hg. apply (br_notif st b B).
   - intros u Hc Hne. rewrite Hcur in Hc. destruct (Nat.eq_dec u t) as [->|Hu].
-    + destruct (Hex Hc Hne) as [[Hne0 Hl]|Hl]; [|right; exact Hl].
-      destruct (br_exit st b B t Hc Hne0) as [M|L]; [left; apply A4; exact M|].
-      left. apply A6; [rewrite (br_cur st b B t Ht); exact Hc|apply Hl; exact L].
+    + destruct (Hex Hc Hne) as [[Hne0 Hl]|[Hl|Hl]]; [|right; exact Hl|].
+      * destruct (br_exit st b B t Hc Hne0) as [M|L]; [left; apply A4; exact M|].
+        left. apply A6; [rewrite (br_cur st b B t Ht); exact Hc|apply Hl; exact L].
+      * rewrite Hl in *. destruct (br_exit st b B t Hc Hne) as [M|L]; [left; apply A4; exact M|right; exact L].
     + rewrite (Ho u Hu) in *. destruct (br_exit st b B u Hc Hne) as [M|L]; [left; apply A4; exact M|right; exact L].
 Qed.
 
@@ -567,7 +568,7 @@ Lemma begin_cmd_sum : forall st t c st' ev done,
   pristine st -> (t < nthr st)%nat -> begin_cmd st t c = (st', ev, done) ->
   (forall e, In e ev -> plain e /\ is_ghost e = true) /\
   tcur (thr st' t) = tcur (thr st t) /\
-  (forall u, u <> t -> (u < nthr st)%nat -> thr st' u = thr st u) /\
+  (forall u, u <> t -> (u <> nthr st \/ nthr st' = nthr st) -> thr st' u = thr st u) /\
   (nthr st' = nthr st \/
    (nthr st' = S (nthr st) /\ tcur (thr st' (nthr st)) = None /\ tcont (thr st' (nthr st)) = [])) /\
   gnotified st' = (if is_pollcmd c && is_main t then false else gnotified st).
@@ -577,13 +578,13 @@ Proof.
   { intros l Hl e He. destruct (Hl e He) as [->|[b [h ->]]]; split; try exact Logic.I; reflexivity. }
   assert (Sp : forall s p f, thr s = thr st -> nthr s = nthr st -> gnotified s = gnotified st ->
     tcur (thr (spawn_thread s t p f) t) = tcur (thr st t) /\
-    (forall u, u <> t -> (u < nthr st)%nat -> thr (spawn_thread s t p f) u = thr st u) /\
+    (forall u, u <> t -> (u <> nthr st \/ nthr (spawn_thread s t p f) = nthr st) -> thr (spawn_thread s t p f) u = thr st u) /\
     (nthr (spawn_thread s t p f) = nthr st \/
      (nthr (spawn_thread s t p f) = S (nthr st) /\ tcur (thr (spawn_thread s t p f) (nthr st)) = None /\
       tcont (thr (spawn_thread s t p f) (nthr st)) = []))).
   { intros s p f E1 E2 E3. cbn. unfold updN, th. rewrite E2, E1. split; [|split].
     - destruct (Nat.eqb_spec t (nthr st)); [lia|reflexivity].
-    - intros u Hu Hl. destruct (Nat.eqb_spec u (nthr st)); [lia|reflexivity].
+    - intros u Hu [Hl|Hl]; [destruct (Nat.eqb_spec u (nthr st)); [congruence|reflexivity]|cbn in Hl; lia].
     - right. rewrite Nat.eqb_refl. cbn. auto. }
   destruct c; cbn [begin_cmd] in H; destr_all H; inversion H; subst; clear H; cbn [is_pollcmd andb];
     repeat match goal with
@@ -599,7 +600,7 @@ Proof.
               | E : negb (is_main _) = true |- _ => apply negb_true_iff in E; rewrite ?E
               | E : negb (is_main _) = false |- _ => apply negb_false_iff in E; rewrite ?E
               end.
-  all: try (split; [intros e0 []|]; split; [thr_simpl|split; [thr_simpl|split; [left; reflexivity|reflexivity]]]; fail).
+  all: try (split; [intros e0 []|]; split; [thr_simpl|split; [thr_simpl|split; [left; reflexivity|first [reflexivity|assumption]]]]; fail).
   - (* CFill *)
     match goal with E : fill_loop _ _ _ = _ |- _ =>
       destruct (fill_loop_ghostev _ _ _ _ _ E ltac:(intros e0 [])) as [G1 G2]; destruct (fill_loop_pps _ _ _ _ _ E) as [_ B];
@@ -608,4 +609,369 @@ Proof.
   - (* CPNew *)
     match goal with |- context [spawn_thread ?S _ ?pp ?F] => destruct (Sp S pp F) as [S1 [S2 S3]]; [exact C1|exact C2|cbn; assumption|] end.
     split; [apply Gh; intros e0 [<-|[]]; eauto|]. split; [exact S1|split; [exact S2|split; [exact S3|cbn; assumption]]].
+Qed.
+
+Lemma evs_app : forall t a b, evs t (a ++ b) = evs t a ++ evs t b.
+Proof. intros. unfold evs. apply map_app. Qed.
+
+Lemma begin_B : forall s0 b t c cs st2 ev0 done,
+  BRel s0 b -> pristine s0 -> (t < nthr s0)%nat -> tcur (thr s0 t) = None -> tcont (thr s0 t) = [] ->
+  let s1 := upd_th s0 t (set_tret (set_tcur (set_tscript (th s0 t) cs) (Some c)) RUnit) in
+  begin_cmd s1 t c = (st2, ev0, done) ->
+  BRel st2 (fold_left mb_step (evs t (ECmd c :: ev0)) b).
+Proof.
+  intros s0 b t c cs st2 ev0 done B P Ht Hcur Hc s1 Eb.
+  assert (P1 : pristine s1) by (unfold s1; prist s0 t).
+  destruct (begin_cmd_sum s1 t c st2 ev0 done P1 Ht Eb) as [Hp [Ht2 [Ho [Hn Hg]]]].
+  change (evs t (ECmd c :: ev0)) with ((t, ECmd c) :: evs t ev0). cbn [fold_left].
+  set (b1 := mb_step b (t, ECmd c)).
+  assert (Eb1 : b1 = mkMB ((t, c) :: b_cur b) (b_exit b)
+                      (if is_pollcmd c && is_main t then false else b_notif b) (b_nthr b)).
+  { unfold b1. cbn. unfold is_main. destruct c; cbn; try reflexivity; destruct (Nat.eqb t 0); reflexivity. }
+  destruct (mb_fold_plain t ev0 b1 (fun e He => proj1 (Hp e He))) as [A1 [A2 [A3 [A4 [A5 [A6 A7]]]]]]. cbn zeta in *.
+  assert (G1 : get_tid t (b_cur b1) = Some c) by (rewrite Eb1; cbn; rewrite Nat.eqb_refl; reflexivity).
+  pose proof (A7 c G1) as A8.
+  assert (T1 : tcur (thr s1 t) = Some c) by (unfold s1; thr_simpl).
+  assert (O1 : forall u, u <> t -> thr s1 u = thr s0 u) by (unfold s1; thr_simpl).
+  assert (N1 : nthr s1 = nthr s0) by reflexivity.
+  assert (Same : forall u, u <> t -> (u <> nthr s0 \/ nthr st2 = nthr s0) -> thr st2 u = thr s0 u).
+  { intros u Hu Hd. rewrite (Ho u Hu); [apply O1; exact Hu|rewrite N1; exact Hd]. }
+  assert (Gt : forall u, u <> t -> get_tid u (b_cur b1) = get_tid u (b_cur b)).
+  { intros u Hu. rewrite Eb1. cbn. destruct (Nat.eqb_spec t u); [congruence|reflexivity]. }
+  rewrite N1 in Hn.
+  constructor.
+  - intros u Hu. rewrite A1. destruct (Nat.eq_dec u t) as [->|Hn0]; [rewrite G1, Ht2, T1; reflexivity|].
+    rewrite (Gt u Hn0). destruct (le_lt_dec (nthr s0) u) as [Hge|Hlt].
+    + destruct Hn as [Hn|[Hn [Hn1 _]]]; [lia|]. assert (u = nthr s0) by lia. subst u. rewrite Hn1. apply (br_dom s0 b B). lia.
+    + rewrite (Same u Hn0 ltac:(left; lia)). apply (br_cur s0 b B u Hlt).
+  - intros u Hu. rewrite A1. assert (Hn0 : u <> t) by (destruct Hn as [Hn|[Hn _]]; lia).
+    rewrite (Gt u Hn0). apply (br_dom s0 b B). destruct Hn as [Hn|[Hn _]]; lia.
+  - rewrite A1, Eb1. cbn. constructor; [|apply (br_nd s0 b B)].
+    apply get_tid_none. rewrite (br_cur s0 b B t Ht). exact Hcur.
+  - rewrite A2, Eb1, Hg. cbn. rewrite (br_notif s0 b B). reflexivity.
+  - intros u Hcu Hne. rewrite A8, Eb1. cbn [b_exit].
+    destruct (Nat.eq_dec u t) as [->|Hn0]; [rewrite Ht2, T1 in Hcu; discriminate|].
+    destruct (Nat.eq_dec u (nthr s0)) as [->|Hn1].
+    + destruct Hn as [Hn|[Hn [_ Hn2]]]; [|congruence].
+      rewrite (Same _ Hn0 (or_intror Hn)) in *. apply (br_exit s0 b B _ Hcu Hne).
+    + rewrite (Same u Hn0 (or_introl Hn1)) in *. apply (br_exit s0 b B u Hcu Hne).
+Qed.
+
+(** ** the end of a step *)
+Lemma norm_dels : forall fuel s acc k ev s1 acc1 k1 ev1,
+  norm fuel s acc k ev = (s1, acc1, k1, ev1) ->
+  exists dels, ev1 = ev ++ dels /\ forall e, In e dels -> exists b h, e = EDel b h.
+Proof.
+  induction fuel as [|f IH]; intros s acc k ev s1 acc1 k1 ev1 H; cbn [norm] in H.
+  - inversion H; subst. exists []. rewrite app_nil_r. split; [reflexivity|intros e []].
+  - assert (Z0 : exists dels, ev = ev ++ dels /\ forall e, In e dels -> exists b h, e = EDel b h)
+      by (exists []; rewrite app_nil_r; split; [reflexivity|intros e []]).
+    destruct k as [|i r]; [inversion H; subst; exact Z0|].
+    destruct i as [c| |[|bm bms]|bm [|a ls]| |[|b bs]|[|b bs]| | | | | | | |];
+      try (inversion H; subst; exact Z0); try (eapply IH; eauto; fail).
+    + destruct (slab_get s b); [inversion H; subst; exact Z0|eapply IH; eauto].
+    + destruct (wh_del s b) as [[h s']|]; [|eapply IH; eauto].
+      inversion H; subst. exists [EDel b h]. split; [reflexivity|]. intros e [<-|[]]. eauto.
+Qed.
+
+Lemma br_same : forall st st' b,
+  nthr st' = nthr st -> (forall u, tcur (thr st' u) = tcur (thr st u) /\ tcont (thr st' u) = tcont (thr st u)) ->
+  gnotified st' = gnotified st -> BRel st b -> BRel st' b.
+Proof.
+  intros st st' b Hn Hf Hg B. constructor.
+  - intros u Hu. destruct (Hf u) as [A _]. rewrite A. apply (br_cur st b B). lia.
+  - intros u Hu. apply (br_dom st b B). lia.
+  - apply (br_nd st b B).
+  - rewrite Hg. apply (br_notif st b B).
+  - intros u. destruct (Hf u) as [A C]. rewrite A, C. apply (br_exit st b B u).
+Qed.
+
+Lemma settle_B : forall st b t ev done st' ev',
+  BRel st b -> XInv st -> CInv (core st) -> (t < nthr st)%nat ->
+  (done <> None -> tcont (thr st t) = [] /\ tcur (thr st t) <> None) ->
+  settle st t ev done = (st', ev') ->
+  exists tail, ev' = ev ++ tail /\ BRel st' (fold_left mb_step (evs t tail) b).
+Proof.
+  intros st b t ev done st' ev' B X I Ht Hd H. unfold settle in H.
+  destruct (norm (2 * (cont_size (tcont (th st t)) + length (tacc (th st t))) + 2) (sl st) (tacc (th st t)) (tcont (th st t)) ev)
+    as [[[s1 acc1] k1] ev1] eqn:En.
+  cbn zeta in H.
+  destruct (norm_dels _ _ _ _ _ _ _ _ _ En) as [dels [Edels Hdels]].
+  pose proof (norm_nrel _ _ _ _ _ _ _ _ _ En) as N.
+  set (st1 := set_sl (upd_th st t (set_tacc (set_tcont (th st t) k1) acc1)) s1) in *.
+  assert (Pd : forall e, In e dels -> plain e) by (intros e He; destruct (Hdels e He) as [x [h ->]]; exact Logic.I).
+  assert (T1 : tcont (thr st1 t) = k1) by (unfold st1; thr_simpl).
+  assert (B1 : BRel st1 (fold_left mb_step (evs t dels) b)).
+  { assert (H1 : forall u, tcur (thr st1 u) = tcur (thr st u)).
+    { intro u. unfold st1. cbn -[Nat.eqb]. unfold updN, th. destruct (Nat.eqb_spec u t) as [E|E]; [rewrite E|]; reflexivity. }
+    assert (H2 : forall u, u <> t -> tcont (thr st1 u) = tcont (thr st u)).
+    { intros u Hu. unfold st1. cbn -[Nat.eqb]. unfold updN, th. destruct (Nat.eqb_spec u t) as [E|E]; [congruence|reflexivity]. }
+    apply (br_plain st st1 b t dels B eq_refl H1 H2 eq_refl Pd); [|exact Ht].
+    intros Hc0 Hne. right; right. rewrite T1.
+    destruct (tcont (thr st t)) eqn:Ek; [unfold th in N; rewrite Ek in N; apply nrel_nil; exact N|].
+    assert (Hne0 : tcont (thr st t) <> []) by (rewrite Ek; discriminate).
+    destruct (x_idle st X t Hc0 Hne0) as [_ [_ [Nm _]]].
+    (* not the main thread: nothing to normalise *)
+    rewrite norm_id in En; [|intros j Hj; apply (i_mainonly _ I t Nm); exact Hj].
+    injection En as _ _ E3 _. unfold th in E3. rewrite Ek in E3. symmetry. exact E3. }
+  assert (Hkd : done <> None -> k1 = []).
+  { intro D. destruct (Hd D) as [E _]. unfold th in N. rewrite E in N. apply nrel_nil. exact N. }
+  assert (Hcur1 : tcur (thr st1 t) = tcur (thr st t)) by (unfold st1; cbn -[Nat.eqb]; unfold updN, th; rewrite Nat.eqb_refl; reflexivity).
+  assert (Hn1 : nthr st1 = nthr st) by reflexivity.
+  assert (I1f : forall i, In i (tfinal (thr st1 t)) -> exists m a, i = ILock m a).
+  { intros i Hi. assert (Hi' : In i (tfinal (thr st t))) by (revert Hi; unfold st1; cbn -[Nat.eqb]; unfold updN, th; rewrite Nat.eqb_refl; cbn; auto).
+    apply (i_final _ I t) in Hi'. destruct i; cbn in Hi'; try contradiction. eauto. }
+  set (b1 := fold_left mb_step (evs t dels) b) in *.
+  clearbody st1.
+  match type of H with (let '(st2, ev2) := ?E in _) = _ => destruct E as [st2 ev2] eqn:E2 end.
+  (* command completion *)
+  assert (Ret : forall s v, (forall u, u <> t -> thr s u = thr st1 u) -> thr s t = set_tcur (thr st1 t) None ->
+                nthr s = nthr st1 -> gnotified s = gnotified st1 -> k1 = [] -> tcur (thr st1 t) <> None ->
+                BRel s (mb_step b1 (t, ERet v))).
+  { intros s v A F Hn Hg G Hc. destruct (tcur (thr st1 t)) as [c|] eqn:Ec; [|congruence].
+    assert (Gt : get_tid t (b_cur b1) = Some c) by (rewrite (br_cur st1 b1 B1 t); [exact Ec|lia]).
+    cbn [mb_step]. constructor; cbn [b_cur b_exit b_notif b_nthr].
+    - intros u Hu. destruct (Nat.eq_dec u t) as [->|Hu0].
+      + rewrite F. cbn. apply get_tid_rm_same. apply (br_nd st1 b1 B1).
+      + rewrite get_tid_rm_other by auto. rewrite (A u Hu0). apply (br_cur st1 b1 B1). lia.
+    - intros u Hu. assert (Hu0 : u <> t) by lia. rewrite get_tid_rm_other by auto. apply (br_dom st1 b1 B1). lia.
+    - apply rm_tid_nd. apply (br_nd st1 b1 B1).
+    - rewrite Hg. apply (br_notif st1 b1 B1).
+    - intros u Hcu Hne. destruct (Nat.eq_dec u t) as [->|Hu0].
+      + exfalso. apply Hne. rewrite F. cbn. rewrite T1. exact G.
+      + rewrite (A u Hu0) in *. apply (br_exit st1 b1 B1 u Hcu Hne). }
+  assert (B2 : exists tl2, ev2 = ev1 ++ tl2 /\ BRel st2 (fold_left mb_step (evs t tl2) b1) /\
+                           tfinal (thr st2 t) = tfinal (thr st1 t) /\ nthr st2 = nthr st1).
+  { destruct done as [v|].
+    - inversion E2; subst st2 ev2. exists [ERet v]. split; [reflexivity|]. split; [|split; [thr_simpl|reflexivity]].
+      cbn [evs map fold_left]. apply Ret; try reflexivity.
+      + thr_simpl.
+      + cbn. unfold updN, th. rewrite Nat.eqb_refl. reflexivity.
+      + apply Hkd. discriminate.
+      + rewrite Hcur1. apply Hd. discriminate.
+    - destruct k1.
+      + destruct (tcur (th st1 t)) as [c|] eqn:Ec.
+        * inversion E2; subst st2 ev2. exists [ERet (tret (th st1 t))]. split; [reflexivity|].
+          split; [|split; [destruct c; thr_simpl|destruct c; reflexivity]].
+          cbn [evs map fold_left].
+          apply Ret; [intros u Hu; destruct c; thr_simpl
+                     |destruct c; cbn; unfold updN, th; rewrite Nat.eqb_refl; reflexivity
+                     |destruct c; reflexivity|destruct c; reflexivity|reflexivity|unfold th in Ec; congruence].
+        * inversion E2; subst st2 ev2. exists []. rewrite app_nil_r. split; [reflexivity|]. split; [exact B1|split; reflexivity].
+      + inversion E2; subst st2 ev2. exists []. rewrite app_nil_r. split; [reflexivity|]. split; [exact B1|split; reflexivity]. }
+  destruct B2 as [tl2 [E2' [B2 [F2 N2]]]].
+  set (b2 := fold_left mb_step (evs t tl2) b1) in *.
+  assert (Fin : exists tl3, ev' = ev2 ++ tl3 /\ BRel st' (fold_left mb_step (evs t tl3) b2)).
+  { destruct (tcont (th st2 t)) eqn:Ec; [|inversion H; subst; exists []; rewrite app_nil_r; auto].
+    destruct (tscript (th st2 t)) eqn:Es; [|inversion H; subst; exists []; rewrite app_nil_r; auto].
+    destruct (tcur (th st2 t)) eqn:Eu; [inversion H; subst; exists []; rewrite app_nil_r; auto|].
+    destruct (tfinal (th st2 t)) eqn:Ef; inversion H; subst st' ev'; clear H.
+    - (* the thread has finished *)
+      destruct (is_main t) eqn:Em; [exists []; rewrite app_nil_r; auto|].
+      exists [EExit]. split; [reflexivity|]. cbn [evs map fold_left mb_step].
+      constructor; cbn [b_cur b_exit b_notif b_nthr].
+      + apply (br_cur st2 b2 B2).
+      + apply (br_dom st2 b2 B2).
+      + apply (br_nd st2 b2 B2).
+      + apply (br_notif st2 b2 B2).
+      + intros u Hcu Hne. rewrite memT_rmT. destruct (Nat.eqb_spec u t) as [->|Hu0]; [unfold th in Ec; congruence|].
+        cbn. apply (br_exit st2 b2 B2 u Hcu Hne).
+    - (* the exit sequence becomes the continuation *)
+      exists []. rewrite app_nil_r. split; [reflexivity|]. cbn [evs map fold_left].
+      constructor.
+      + intros u Hu. cbn -[Nat.eqb]. unfold updN, th. destruct (Nat.eqb_spec u t); subst; cbn; apply (br_cur st2 b2 B2); exact Hu.
+      + apply (br_dom st2 b2 B2).
+      + apply (br_nd st2 b2 B2).
+      + apply (br_notif st2 b2 B2).
+      + intros u. cbn -[Nat.eqb]. unfold updN, th. destruct (Nat.eqb_spec u t) as [->|Hu0]; cbn; [|apply (br_exit st2 b2 B2 u)].
+        intros _ _. right. intros j Hj. apply I1f. rewrite <- F2. unfold th in Ef. rewrite Ef. exact Hj. }
+  destruct Fin as [tl3 [E3 B3]].
+  exists (dels ++ tl2 ++ tl3). split.
+  - rewrite E3, E2', Edels. rewrite <- !app_assoc. reflexivity.
+  - rewrite !evs_app, !fold_left_app. exact B3.
+Qed.
+
+(** at step boundaries a command in progress has something left to do *)
+Definition YInv (st : wstate) : Prop := forall t, tcur (thr st t) <> None -> tcont (thr st t) <> [].
+
+Lemma settle_Y : forall st t ev done st' ev',
+  settle st t ev done = (st', ev') ->
+  (tcur (thr st' t) <> None -> tcont (thr st' t) <> []) /\ (forall u, u <> t -> thr st' u = thr st u).
+Proof.
+  intros st t ev done st' ev' H. unfold settle in H.
+  destruct (norm (2 * (cont_size (tcont (th st t)) + length (tacc (th st t))) + 2) (sl st) (tacc (th st t)) (tcont (th st t)) ev)
+    as [[[s1 acc1] k1] ev1] eqn:En.
+  cbn zeta in H.
+  set (st1 := set_sl (upd_th st t (set_tacc (set_tcont (th st t) k1) acc1)) s1) in *.
+  assert (T1 : tcont (thr st1 t) = k1) by (unfold st1; cbn -[Nat.eqb]; unfold updN, th; rewrite Nat.eqb_refl; reflexivity).
+  assert (O1 : forall u, u <> t -> thr st1 u = thr st u).
+  { intros u Hu. unfold st1. cbn -[Nat.eqb]. unfold updN, th. destruct (Nat.eqb_spec u t); [congruence|reflexivity]. }
+  clearbody st1.
+  match type of H with (let '(st2, ev2) := ?E in _) = _ => destruct E as [st2 ev2] eqn:E2 end.
+  assert (S2 : (tcur (thr st2 t) <> None -> tcont (thr st2 t) <> []) /\ (forall u, u <> t -> thr st2 u = thr st1 u)).
+  { destruct done as [v|].
+    - inversion E2; subst. split; [cbn; unfold updN, th; rewrite Nat.eqb_refl; cbn; congruence|thr_simpl].
+    - destruct k1.
+      + destruct (tcur (th st1 t)) as [c|] eqn:Ec; inversion E2; subst.
+        * split; [destruct c; cbn; unfold updN, th; rewrite Nat.eqb_refl; cbn; congruence|destruct c; thr_simpl].
+        * split; [unfold th in Ec; congruence|auto].
+      + inversion E2; subst. split; [rewrite T1; discriminate|auto]. }
+  destruct S2 as [S2 O2].
+  assert (O : forall u, u <> t -> thr st2 u = thr st u) by (intros u Hu; rewrite O2, O1; auto).
+  destruct (tcont (th st2 t)) eqn:Ec; [|inversion H; subst; auto].
+  destruct (tscript (th st2 t)) eqn:Es; [|inversion H; subst; auto].
+  destruct (tcur (th st2 t)) eqn:Eu; [inversion H; subst; auto|].
+  destruct (tfinal (th st2 t)) eqn:Ef; inversion H; subst; [auto|].
+  split.
+  - cbn. unfold updN, th. rewrite Nat.eqb_refl. cbn. discriminate.
+  - intros u Hu. cbn. unfold updN, th. destruct (Nat.eqb_spec u t); [congruence|]. apply O. exact Hu.
+Qed.
+
+Theorem wstep_Y : forall st t st' ev, MInv st -> YInv st -> wstep st t = (st', ev) -> YInv st'.
+Proof.
+  intros st t st' ev [I [P Wf]] Y H. unfold wstep in H.
+  destruct (enabled st t) eqn:En; cbn [negb] in H; [|inversion H; subst; exact Y].
+  assert (Ht : (t < nthr st)%nat).
+  { unfold enabled in En. apply andb_true_iff in En. destruct En as [En _]. apply Nat.ltb_lt in En. exact En. }
+  assert (Pt : pristine (tick st t)) by (unfold tick; prist st t).
+  assert (Yt : YInv (tick st t)).
+  { intro u. unfold tick. cbn -[Nat.eqb]. unfold updN, th. destruct (Nat.eqb_spec u t); subst; cbn; apply Y. }
+  assert (Htt : (t < nthr (tick st t))%nat) by exact Ht.
+  set (s0 := tick st t) in *. clearbody s0. clear En.
+  assert (Fin : forall s ev0 done, (forall u, u <> t -> tcur (thr s u) <> None -> tcont (thr s u) <> []) ->
+                                   settle s t ev0 done = (st', ev) -> YInv st').
+  { intros s ev0 done Ho Hs. destruct (settle_Y _ _ _ _ _ _ Hs) as [A B]. intro u.
+    destruct (Nat.eq_dec u t) as [->|Hu]; [exact A|rewrite (B u Hu); apply Ho; exact Hu]. }
+  destruct (tstarted (th s0 t)) eqn:Es0; cbn [negb] in H.
+  - destruct (tcont (th s0 t)) as [|i r] eqn:Ec.
+    + destruct (tscript (th s0 t)) as [|c0 cs] eqn:Es; [inversion H; subst; exact Y|].
+      match type of H with context [begin_cmd ?S0 t ?cc] =>
+        destruct (begin_cmd S0 t cc) as [[st2 ev0] done] eqn:Eb; set (s1 := S0) in * end.
+      assert (P1 : pristine s1) by (unfold s1; prist s0 t).
+      destruct (begin_cmd_sum s1 t c0 st2 ev0 done P1 Htt Eb) as [_ [_ [Ho [Hn _]]]].
+      apply (Fin st2 (ECmd c0 :: ev0) done); [|exact H].
+      intros u Hu. change (nthr s1) with (nthr s0) in *.
+      destruct (Nat.eq_dec u (nthr s0)) as [->|Hn0].
+      * destruct Hn as [Hn|[_ [Hn1 _]]]; [|congruence].
+        rewrite (Ho _ Hu (or_intror Hn)). unfold s1. cbn -[Nat.eqb]. unfold updN, th.
+        destruct (Nat.eqb_spec (nthr s0) t); [congruence|]. apply Yt.
+      * rewrite (Ho u Hu (or_introl Hn0)). unfold s1. cbn -[Nat.eqb]. unfold updN, th.
+        destruct (Nat.eqb_spec u t); [congruence|]. apply Yt.
+    + destruct (exec_instr s0 t i r) as [st1 ev1] eqn:Ee.
+      destruct (exec_instr_tf _ _ _ _ _ _ Ee) as [_ [Hf Ho]].
+      apply (Fin st1 ev1 None); [|exact H]. intros u Hu. destruct (Hf u) as [A _]. rewrite A, (Ho u Hu). apply Yt.
+  - apply (Fin (upd_th s0 t (set_tstarted (th s0 t) true)) [EStart] None); [|exact H]. intros u Hu. cbn -[Nat.eqb]. unfold updN, th.
+    destruct (Nat.eqb_spec u t); [congruence|]. apply Yt.
+Qed.
+
+Lemma Y_init : forall scr, YInv (winit scr).
+Proof. intros scr t. cbn. congruence. Qed.
+
+Lemma wrun_Y : forall sched st, MInv st -> YInv st -> YInv (fst (wrun st sched)).
+Proof.
+  induction sched as [|t rest IH]; intros st M X; cbn [wrun]; auto.
+  destruct (wstep st t) as [st1 ev] eqn:E.
+  specialize (IH st1 (wstep_inv _ _ _ _ M E) (wstep_Y _ _ _ _ M X E)).
+  destruct (wrun st1 rest) as [st2 tr]. exact IH.
+Qed.
+
+Theorem reachable_Y : forall st, reachable st -> YInv st.
+Proof. intros st [scr [sched ->]]. apply wrun_Y; [apply MInv_init|apply Y_init]. Qed.
+
+Theorem wstep_B : forall st b t st' ev,
+  MInv st -> XInv st -> YInv st -> BRel st b -> wstep st t = (st', ev) -> BRel st' (fold_left mb_step (evs t ev) b).
+Proof.
+  intros st b t st' ev [I [P Wf]] X Y B H. unfold wstep in H.
+  destruct (enabled st t) eqn:En; cbn [negb] in H; [|inversion H; subst; cbn; exact B].
+  assert (Ht : (t < nthr st)%nat).
+  { unfold enabled in En. apply andb_true_iff in En. destruct En as [En _]. apply Nat.ltb_lt in En. exact En. }
+  assert (It : CInv (core (tick st t))) by (eapply CInv_ceq; [|exact I]; unfold tick; same_core).
+  assert (Pt : pristine (tick st t)) by (unfold tick; prist st t).
+  assert (Wt : wfi (tick st t)) by (eapply wfi_eq; [| | |exact Wf]; reflexivity).
+  assert (Xt : XInv (tick st t)) by (apply (x_same st); auto; unfold tick; xs).
+  assert (Yt : YInv (tick st t)).
+  { intro u. unfold tick. cbn -[Nat.eqb]. unfold updN, th. destruct (Nat.eqb_spec u t); subst; cbn; apply Y. }
+  assert (Bt : BRel (tick st t) b) by (apply (br_same st); auto; intro u; unfold tick; split; thr_simpl).
+  assert (Htt : (t < nthr (tick st t))%nat) by exact Ht.
+  set (s0 := tick st t) in *. clearbody s0. clear En.
+  destruct (tstarted (th s0 t)) eqn:Es0; cbn [negb] in H.
+  - destruct (tcont (th s0 t)) as [|i r] eqn:Ec.
+    + destruct (tscript (th s0 t)) as [|c0 cs] eqn:Es; [inversion H; subst; cbn; exact B|].
+      match type of H with context [begin_cmd ?S0 t ?cc] =>
+        destruct (begin_cmd S0 t cc) as [[st2 ev0] done] eqn:Eb; set (s1 := S0) in * end.
+      assert (Hcur0 : tcur (thr s0 t) = None).
+      { destruct (tcur (thr s0 t)) eqn:E; auto. exfalso. apply (Yt t); [congruence|exact Ec]. }
+      pose proof (begin_B s0 b t c0 cs st2 ev0 done Bt Pt Htt Hcur0 Ec Eb) as B2.
+      assert (I1 : CInv (core s1)) by (eapply CInv_ceq; [|exact It]; unfold s1; same_core).
+      assert (P1 : pristine s1) by (unfold s1; prist s0 t).
+      assert (W1 : wfi s1) by (eapply wfi_eq; [| | |exact Wt]; reflexivity).
+      assert (Hc1 : tcont (thr s1 t) = []) by (unfold s1; thr_simpl; exact Ec).
+      assert (Hcur1 : tcur (thr s1 t) <> None) by (unfold s1; thr_simpl).
+      assert (Hs1 : tstarted (thr s1 t) = true) by (unfold s1; thr_simpl; exact Es0).
+      assert (X1 : XInv s1).
+      { constructor.
+        - intros u. unfold s1. cbn -[Nat.eqb]. unfold updN, th. destruct (Nat.eqb_spec u t); subst; cbn; [congruence|apply (x_idle s0 Xt u)].
+        - unfold s1. cbn -[Nat.eqb]. unfold updN, th. destruct (Nat.eqb_spec main t); subst; cbn; apply (x_main s0 Xt).
+        - intros u. unfold s1. cbn -[Nat.eqb]. unfold updN, th. destruct (Nat.eqb_spec u t); subst; cbn; [unfold th in Es0; congruence|apply (x_fresh s0 Xt u)]. }
+      destruct (begin_cmd_inv s1 t c0 st2 ev0 done I1 P1 W1 Hc1 Htt Eb) as [I2 _].
+      pose proof (begin_cmd_X s1 t c0 st2 ev0 done X1 P1 Htt Hcur1 Hs1 Eb) as X2.
+      destruct (begin_cmd_sum s1 t c0 st2 ev0 done P1 Htt Eb) as [_ [Ht2 [_ [Hn _]]]].
+      assert (Ht2' : (t < nthr st2)%nat) by (change (nthr s1) with (nthr s0) in Hn; destruct Hn as [Hn|[Hn _]]; lia).
+      destruct (settle_B st2 _ t (ECmd c0 :: ev0) done st' ev B2 X2 I2 Ht2') as [tail [Et Bf]]; [|exact H|].
+      * intro D. destruct done as [v|]; [|congruence]. split; [rewrite (begin_cmd_done s1 t c0 st2 ev0 v Htt Eb); exact Hc1|congruence].
+      * rewrite Et, evs_app, fold_left_app. exact Bf.
+    + destruct (exec_instr s0 t i r) as [st1 ev1] eqn:Ee.
+      pose proof (exec_instr_B s0 b t i r st1 ev1 Bt Ec Htt Ee) as B1.
+      assert (I1 : CInv (core st1)) by (eapply exec_instr_inv; eauto).
+      pose proof (exec_instr_tf _ _ _ _ _ _ Ee) as F.
+      assert (X1 : XInv st1) by (eapply (x_tframe s0 st1 t i r); eauto).
+      assert (Ht1 : (t < nthr st1)%nat) by (destruct F as [N _]; lia).
+      destruct (settle_B st1 _ t ev1 None st' ev B1 X1 I1 Ht1) as [tail [Et Bf]]; [intro D; exfalso; apply D; reflexivity|exact H|].
+      rewrite Et, evs_app, fold_left_app. exact Bf.
+  - set (s1 := upd_th s0 t (set_tstarted (th s0 t) true)) in *.
+    assert (B1 : BRel s1 b) by (apply (br_same s0); auto; intro u; unfold s1; split; thr_simpl).
+    assert (I1 : CInv (core s1)) by (eapply CInv_ceq; [|exact It]; unfold s1; same_core).
+    assert (X1 : XInv s1).
+    { destruct (x_fresh s0 Xt t Es0) as [Q1 Q2]. constructor.
+      - intros u. unfold s1. cbn -[Nat.eqb]. unfold updN, th. destruct (Nat.eqb_spec u t); subst; cbn; [congruence|apply (x_idle s0 Xt u)].
+      - unfold s1. cbn -[Nat.eqb]. unfold updN, th. destruct (Nat.eqb_spec main t); subst; cbn; apply (x_main s0 Xt).
+      - intros u. unfold s1. cbn -[Nat.eqb]. unfold updN, th. destruct (Nat.eqb_spec u t); subst; cbn; [congruence|apply (x_fresh s0 Xt u)]. }
+    destruct (settle_B s1 b t [EStart] None st' ev B1 X1 I1 Htt) as [tail [Et Bf]]; [intro D; exfalso; apply D; reflexivity|exact H|].
+    rewrite Et. change (evs t ([EStart] ++ tail)) with ((t, EStart) :: evs t tail). cbn [fold_left mb_step]. exact Bf.
+Qed.
+
+(** the monitors' bookkeeping after a whole run *)
+Lemma flatten_cons : forall t ev tr, flatten ((t, ev) :: tr) = evs t ev ++ flatten tr.
+Proof. reflexivity. Qed.
+
+Lemma mb0_rel : forall scr, BRel (winit scr) mb0.
+Proof.
+  intro scr. constructor; cbn.
+  - intros t Ht. reflexivity.
+  - reflexivity.
+  - constructor.
+  - reflexivity.
+  - intros t _ Hne. congruence.
+Qed.
+
+Theorem wrun_B : forall sched st b, MInv st -> XInv st -> YInv st -> BRel st b ->
+  BRel (fst (wrun st sched)) (fold_left mb_step (flatten (snd (wrun st sched))) b).
+Proof.
+  induction sched as [|t rest IH]; intros st b M X Y B; cbn [wrun]; [exact B|].
+  destruct (wstep st t) as [st1 ev] eqn:E.
+  specialize (IH st1 _ (wstep_inv _ _ _ _ M E) (wstep_X _ _ _ _ M X E) (wstep_Y _ _ _ _ M Y E) (wstep_B _ _ _ _ _ M X Y B E)).
+  destruct (wrun st1 rest) as [st2 tr]. cbn [fst snd] in *. rewrite flatten_cons, fold_left_app. exact IH.
+Qed.
+
+(** A run whose observable trace is quiescent for the monitors (every command has returned, no thread is inside
+    its exit sequence, the last poll-waker callback has been served) ends in a quiescent model state. *)
+Theorem trace_quiescent_state : forall scr sched,
+  mb_quiescent (fold_left mb_step (flatten (wtrace scr sched)) mb0) = true ->
+  quiescent (fst (wrun (winit scr) sched)).
+Proof.
+  intros scr sched Hq.
+  assert (R : reachable (fst (wrun (winit scr) sched))) by (exists scr, sched; reflexivity).
+  pose proof (wrun_B sched (winit scr) mb0 (MInv_init scr) (X_init scr) (Y_init scr) (mb0_rel scr)) as B.
+  destruct (reachable_minv _ R) as [_ [P _]].
+  exact (mbq_quiescent _ _ B (reachable_X _ R) P Hq).
 Qed.
